@@ -21,7 +21,7 @@ def model_request(line, impl_out):
     """the request sent to the model for an implementation request: identical, except that random
     draws of the implementation (salt seeds) are read off its output and passed to the model as inputs"""
     if line.startswith("privenc "):
-        p = line.split(" ")
+        p = [x for x in line.split(" ") if not x.startswith("seed=")]
         seed = 0
         if impl_out.startswith("ok ") and "/" in impl_out:
             salt = impl_out[3:].split(";")[0].split("/")[1]
